@@ -17,4 +17,11 @@ def build(tier):
               dict(bases=0, ctors=[], methods=[(3, 3, False)], attrs=[True], inner=0)]
     for sh in (shapes if not quick else shapes[:4]):
         obs.append(renders.render_ob("C09.b", "class", sh, (0,), 2 if quick else 3, timeout=400 if quick else 1800))
+    # the implementing definition carries a doccomment of its own: the member still shows that definition's parameters and macro note
+    C01 = __import__("C01")
+    for (a_, b_) in ((("cpp_member!", "macro"), ("cpp_constructor!", "macro")) if quick else
+                     (("cpp_member!", "macro"), ("cpp_member!", "function"), ("cpp_constructor!", "function"), ("cpp_constructor!", "macro"))):
+        obs.append(vf.CH(f"C09.c {a_[:-1]} implemented by a DOCUMENTED {b_}: signature and macro note of the member, both doccomments on the page", "c01_pair.py",
+                         dict(K1=a_, K2=b_, LENS1=(1,), LENS2=(2,), IND="", NCP=3, PAD=0), timeout=240 if quick else 1200, encodes=C01.ENC_TEXT,
+                         symbolic="every character of both doccomments", bound="containment of the member's signature line, its macro note and both paragraphs, not page equality"))
     return dict(obligations=obs, explanation="x", assumptions=[])
